@@ -15,7 +15,7 @@ def main():
         sys.exit(mod.replay(json.load(open(a.replay))))
     rep = common.Report(a.pid, tier)
     try:
-        os.remove(os.path.join(common.VERIF, 'evidence', a.pid + '.json'))
+        os.remove(os.path.join(common.EVIDENCE, a.pid + '.json'))
     except FileNotFoundError:
         pass
     rng = random.Random(common.seed() * 1000003 + sum(map(ord, a.pid)))
